@@ -21,6 +21,7 @@ import (
 	"os"
 	"os/exec"
 	"path/filepath"
+	"regexp"
 	"runtime"
 	"sort"
 	"strconv"
@@ -231,6 +232,16 @@ func run(id, mode string, rest []string) int {
 	}
 	wg.Wait()
 
+	// native fuzzing (thorough tier only): every Fuzz function of the package
+	// runs for VERIF_FUZZTIME (default 45s) on all cores; its oracle is inside
+	// the target.  Native fuzzing cannot be seeded, so a crasher file is the
+	// reproducible unit.
+	var fuzzViolations []violation
+	fuzzParts := map[string][2]int64{}
+	if tier == "thorough" && os.Getenv("VERIF_NOFUZZ") == "" {
+		fuzzViolations, fuzzParts = runFuzz(id, bin, filepath.Join(hdir, pkg), scratch, replayDir)
+	}
+
 	// merge
 	files, _ := filepath.Glob(filepath.Join(outDir, "*.json"))
 	sort.Strings(files)
@@ -316,6 +327,7 @@ func run(id, mode string, rest []string) int {
 		}
 	}
 	sort.Strings(partOrder)
+	violations = append(violations, fuzzViolations...)
 
 	var totalEvals int64
 	totalNT := 0
@@ -346,6 +358,20 @@ func run(id, mode string, rest []string) int {
 			"max_shard_wall_s":    a.wall,
 			"shards":              a.shards,
 		}
+	}
+
+	fuzzNames := make([]string, 0, len(fuzzParts))
+	for name := range fuzzParts {
+		fuzzNames = append(fuzzNames, name)
+	}
+	sort.Strings(fuzzNames)
+	for _, name := range fuzzNames {
+		v := fuzzParts[name]
+		totalEvals += v[0]
+		totalNT += int(v[1])
+		allExh = false
+		rules = append(rules, "[fuzz:"+name+"] native go test -fuzz campaign (coverage-guided byte mutation from a corpus of generated valid inputs and hostile constants; oracle inside the target); evaluations = executions, non-trivial = inputs that reached new coverage")
+		partSummaries["fuzz:"+name] = map[string]any{"evaluations": v[0], "distinct_nontrivial": v[1], "exhaustive": false}
 	}
 
 	level := levels[id]
@@ -464,6 +490,78 @@ func run(id, mode string, rest []string) int {
 		return 2
 	}
 	return 0
+}
+
+var fuzzStat = regexp.MustCompile(`execs: (\d+) .*new interesting: (\d+) \(total: (\d+)\)`)
+
+// runFuzz runs the native fuzz targets of a property package.
+func runFuzz(id, bin, pkgDir, scratch, replayDir string) ([]violation, map[string][2]int64) {
+	parts := map[string][2]int64{}
+	var viols []violation
+	list := exec.Command(bin, "-test.list", "^Fuzz")
+	list.Dir = pkgDir
+	list.Env = goEnv()
+	out, err := list.Output()
+	if err != nil {
+		return nil, parts
+	}
+	fuzztime := os.Getenv("VERIF_FUZZTIME")
+	if fuzztime == "" {
+		fuzztime = "45s"
+	}
+	for _, name := range strings.Fields(string(out)) {
+		if !strings.HasPrefix(name, "Fuzz") {
+			continue
+		}
+		corpus := filepath.Join(pkgDir, "testdata", "fuzz", name)
+		before := map[string]bool{}
+		if es, err := os.ReadDir(corpus); err == nil {
+			for _, e := range es {
+				before[e.Name()] = true
+			}
+		}
+		c := exec.Command(bin, "-test.run", "^$", "-test.fuzz", "^"+name+"$", "-test.fuzztime", fuzztime,
+			"-test.fuzzcachedir", filepath.Join(scratch, "fuzzcache"), "-test.timeout", "0")
+		c.Dir = pkgDir
+		c.Env = append(goEnv(), "VERIF_ROOT="+root(), "VERIF_FUZZING=1")
+		var buf bytes.Buffer
+		c.Stdout = &buf
+		c.Stderr = &buf
+		err := c.Run()
+		text := buf.String()
+		var execs, interesting int64
+		for _, m := range fuzzStat.FindAllStringSubmatch(text, -1) {
+			execs, _ = strconv.ParseInt(m[1], 10, 64)
+			interesting, _ = strconv.ParseInt(m[3], 10, 64)
+		}
+		parts[name] = [2]int64{execs, interesting}
+		if err != nil {
+			// move new crashers to the replay directory
+			found := false
+			if es, rerr := os.ReadDir(corpus); rerr == nil {
+				for _, e := range es {
+					if before[e.Name()] {
+						continue
+					}
+					src := filepath.Join(corpus, e.Name())
+					dst := filepath.Join(replayDir, fmt.Sprintf("%s-fuzz-%s-%s.fuzzcase", id, name, e.Name()))
+					data, _ := os.ReadFile(src)
+					os.WriteFile(dst, data, 0o644)
+					os.Remove(src)
+					viols = append(viols, violation{Part: "fuzz:" + name, Message: tail(text, 25), Replay: dst})
+					found = true
+				}
+			}
+			if !found {
+				dst := filepath.Join(replayDir, fmt.Sprintf("%s-fuzz-%s-output.txt", id, name))
+				os.WriteFile(dst, []byte(text), 0o644)
+				if strings.Contains(text, "panic:") || strings.Contains(text, "--- FAIL") {
+					viols = append(viols, violation{Part: "fuzz:" + name, Message: tail(text, 25), Replay: dst})
+				}
+			}
+		}
+	}
+	return viols, parts
 }
 
 func tail(s string, n int) string {
